@@ -894,7 +894,7 @@ func childFailed(r *core.Run, cr core.ChildResult, what string, key map[string]i
 }
 
 func Run(r *core.Run) {
-	r.Assume("arrival orders of parse results and (thorough) the race detector are controlled/observed; the inner print/rename/hash goroutine pools are only perturbed by GOMAXPROCS and repetition, not enumerated (DESIGN.md section 6)")
+	r.Assume("arrival orders of parse results, the schedules of the per-entry-point linkers around the exclusive section and of their log writes, and (thorough) the race detector are controlled/observed; the pools inside one linker (per chunk / part range / file) join by index (SlotJoin.tla) and are only perturbed by GOMAXPROCS, random link schedules and repetition, not enumerated (DESIGN.md section 6, design.d/C08.md)")
 	cfgs := []buildCfg{{Name: "bundle"}, {Name: "split-min-map-mangle", Splitting: true, Minify: true, SourceMap: true, MangleProps: true}}
 	exes := []string{""}
 	if r.Thorough() {
@@ -1002,7 +1002,7 @@ func Run(r *core.Run) {
 	traces := runLinkPhase(r, exes)
 	traces = append(traces, runScaledLinkPhase(r, exes)...)
 	validateLinkTraces(r, traces)
-	r.Set("rule", "case = one (graph, config, imposed arrival order) or one scaled scenario (repeats + GOMAXPROCS sweep + imposed random orders + 3 absolute locations + concurrent siblings); non-trivial = at least 2 distinct arrival orders were actually imposed / at least 2 builds compared")
+	r.Set("rule", "case = one (graph, config, imposed arrival order), one LinkPar input (per-entry mangled properties / local CSS names / error path / preset cache / renaming mode) replayed under its imposed link schedules, or one scaled scenario (repeats + GOMAXPROCS sweep + imposed random scan or link orders + other absolute locations + concurrent siblings); non-trivial = at least 2 distinct arrival orders were actually imposed (link inputs: at least 2 schedules imposed AND two linkers after the first write the shared state) / at least 2 builds compared")
 }
 
 func pick(m map[string]string, keys []string) map[string]string {
